@@ -30,7 +30,8 @@ CLAIM = dict(
           "machine accepts exactly '+'? ('.' digit*)? ('E'|'%')? with precision <= 1000 and sets the flags accordingly; the "
           "integer printed by %.Nf is the nearest to |x|*10^N with ties to even and printed digit strings denote their number. "
           "Tied to the code on every run by differential execution (texts ASCII/CJK/astral/combining x index pairs incl. negative, "
-          "out of range, fractional, non-finite; templates well- and ill-formed x argument lists x boundary doubles x precisions)."),
+          "out of range, fractional, non-finite; templates well- and ill-formed x argument lists x boundary doubles x precisions; 字符组 is also read again after the lists "
+          "that earlier reads of the same text handed back were changed in place)."),
     note=TB + ("Go library behaviour is restated, not verified: unicode/utf8.DecodeRune (from C17), strings.Split/Index/HasPrefix, "
                "fmt %.Nf/%.NE/%.6g (exact decimal rounding of the binary value with Z arithmetic, FormatNum.v), float64*100, "
                "int(float64) on amd64; each is compared with the Go function itself on every run. %v (Number.String, shortest "
